@@ -237,7 +237,7 @@ def run_enumerators(eng, prop, a, seed, results, ctx):
         if prop not in en["props"]:
             continue
         hit = sorted(bad_fns & set(en["scope"]))
-        if a.tier == "thorough" or hit:
+        if a.tier == "thorough" or hit or en.get("always"):
             chosen.append((i, en, hit))
     procs = []
     for i, en, hit in chosen:
